@@ -232,7 +232,9 @@ def st_assign():
     def steps(w):
         by_int = st.tuples(st.just("int"), uint(8 * w))
         by_raw = st.tuples(st.sampled_from(["bytes", "bytearray"]), st.binary(min_size=w, max_size=w + 3).map(bytes.hex))
-        return st.fixed_dictionaries({"w": st.just(w), "v0": uint(8 * w), "steps": st.lists(st.one_of(by_int, by_raw).map(list), min_size=1, max_size=6)})
+        # the width re-declared through the documented byte_len setter, followed by an integer assignment (the same number if it fits, else a drawn one)
+        by_width = st.tuples(st.just("width"), st.tuples(st.sampled_from([1, 2, 4, 8]), uint(64), st.sampled_from([0, 1, 2])).map(list))
+        return st.fixed_dictionaries({"w": st.just(w), "v0": uint(8 * w), "steps": st.lists(st.one_of(by_int, by_raw, by_width).map(list), min_size=1, max_size=6)})
 
     return st.sampled_from([1, 2, 4, 8]).flatmap(steps)
 
@@ -244,11 +246,25 @@ def check_assign(case):
     f = u.UnsignedByteField(case["v0"], w)
     v = case["v0"]
     for i, (kind, arg) in enumerate(case["steps"]):
-        if kind == "int":
+        if kind == "width":
+            new_w, drawn, mode = arg
+            f.byte_len = new_w
+            w = new_w
+            mask = (1 << (8 * new_w)) - 1
+            if mode == 0 and v <= mask:
+                pass  # the same number is assigned again under the new width
+            elif mode == 1:
+                v = min(v, mask)  # the largest value that fits if the old one does not
+            else:
+                v = drawn & mask
+            f.value = v
+        elif kind == "int":
+            arg = arg & ((1 << (8 * w)) - 1)  # (the width may have been re-declared by an earlier step)
             f.value = arg
             v = arg
         else:
             raw = bytes.fromhex(arg)
+            raw = raw + bytes(max(0, w - len(raw)))  # (at least the current width)
             given = raw if kind == "bytes" else bytearray(raw)
             f.value = given
             v = int.from_bytes(raw[:w], "big")
